@@ -3,11 +3,19 @@ import CffiVerif.Model.DlClose
 /-!
 C37 — closed `dlopen` libraries refuse further symbol access.
 
-For both ABI-mode implementations and *every* sequence of accesses: once
-`ffi.dlclose(lib)` has happened (anywhere in the history), reading or writing
-any global variable through `lib` and fetching any function answer with the
-`closed` error and leave the whole state — in particular the memory of the
-(unloaded) library — untouched; closing again is a no-op without error.
+For both ABI-mode implementations, *every* sequence of accesses and *every*
+interleaving of other threads' accesses with the steps of `ffi.dlclose(lib)`:
+once a `dlclose` call has returned (and no other one is still in flight),
+reading or writing any global variable through `lib` and fetching any function
+answer with the `closed` error and leave the whole state — in particular the
+memory of the (unloaded) library — untouched; closing again is a no-op without
+error; and at no point of any history does an access go to the library after
+`dlclose()` gave its reference back (`never_use_after_unload`).
+
+What makes this true is the *order* of the steps of the close: the handle is
+NULLed before the cache is cleared, and nothing can be cached once the handle is
+NULL.  (Clearing first and NULLing after `dlclose()` would let an access in
+between re-cache a raw address.)
 
 The model mirrors the code as it is: `dlclose` clears the attribute cache, so
 even functions fetched *before* the close are refetched (and refused) after it;
@@ -16,35 +24,33 @@ the property only asks this of functions not fetched before.
 namespace CffiVerif.C37
 open CffiVerif.DlClose
 
-/-- The invariant that makes the closed check sufficient: a closed library
-object caches nothing that holds an address. -/
-def Inv (s : State) : Prop := s.isOpen = false → s.cachedF = [] ∧ s.cachedV = []
+/-- The invariant. -/
+structure Inv (impl : Impl) (s : State) : Prop where
+  /-- a close is in flight only with the handle already NULL ("NULL before clear") -/
+  phase_closed : s.phase ≠ .none → s.isOpen = false
+  /-- once the handle is NULL nothing is cached, unless the clear of the in-flight close is still to come -/
+  closed_empty : s.isOpen = false → s.phase = .nulled ∨ (s.cachedF = [] ∧ s.cachedV = [])
+  /-- after the clear nothing is cached -/
+  cleared_empty : s.phase = .cleared → s.cachedF = [] ∧ s.cachedV = []
+  /-- once the reference is given back the handle is NULL and no raw address is cached -/
+  unloaded : s.loaded = false → s.isOpen = false ∧ s.cachedV = []
+  /-- the in-line library object never caches an address and has no `cleared` phase -/
+  inline_novars : impl = .inline → s.cachedV = [] ∧ s.phase ≠ .cleared
 
-theorem inv_open (funcs : List Name) (vars : List (Name × Int)) : Inv (openLib funcs vars) := by
-  intro h; simp [openLib] at h
+/-- "`ffi.dlclose` has returned": handle NULL and nothing cached. -/
+def Closed (s : State) : Prop := s.isOpen = false ∧ s.cachedF = [] ∧ s.cachedV = []
 
-/-- A closed library with an empty cache refuses every access and nothing changes. -/
-theorem closed_step (impl : Impl) (s : State) (hc : s.isOpen = false) (hi : Inv s) (op : Op) :
-    (step impl s op).1 = s ∧
-    (step impl s op).2 = (match op with | .close => .done | _ => .err .closed) := by
-  obtain ⟨hf, hv⟩ := hi hc
-  cases op <;> cases impl <;> simp [step, fetchVar, hc, hf, hv]
+theorem inv_open (impl : Impl) (funcs : List Name) (vars : List (Name × Int)) : Inv impl (openLib funcs vars) := by
+  constructor <;> simp [openLib]
 
-/-- Only `close` closes: every other operation on an open library leaves it open. -/
-theorem open_stays (impl : Impl) (s : State) (op : Op) (hc : s.isOpen = true) (hop : op ≠ .close) :
-    (step impl s op).1.isOpen = true := by
-  cases op <;> cases impl <;> simp only [step, fetchVar, hc] <;> (repeat' split) <;> simp_all
+/-- Every operation of every thread, including each single step of a close, preserves the invariant. -/
+theorem inv_step (impl : Impl) (s : State) (op : Op) (hi : Inv impl s) : Inv impl (step impl s op).1 := by
+  obtain ⟨h1, h2, h3, h4, h5⟩ := hi
+  cases impl <;> cases op <;>
+    simp only [step, closeStep, closeAll, fetchVar, derefVar, outOf] <;>
+    constructor <;> grind
 
-theorem inv_step (impl : Impl) (s : State) (op : Op) (hi : Inv s) : Inv (step impl s op).1 := by
-  cases hc : s.isOpen with
-  | false => rw [(closed_step impl s hc hi op).1]; exact hi
-  | true =>
-    intro h
-    by_cases hop : op = .close
-    · subst hop; simp [step, hc]
-    · rw [open_stays impl s op hc hop] at h; cases h
-
-theorem inv_run (impl : Impl) (s : State) (ops : List Op) (hi : Inv s) : Inv (run impl s ops) := by
+theorem inv_run (impl : Impl) (s : State) (ops : List Op) (hi : Inv impl s) : Inv impl (run impl s ops) := by
   induction ops generalizing s with
   | nil => exact hi
   | cons op rest ih => exact ih _ (inv_step impl s op hi)
@@ -55,68 +61,181 @@ theorem run_append (impl : Impl) (s : State) (a b : List Op) :
   | nil => rfl
   | cons op rest ih => exact ih _
 
-/-- Once closed, closed for ever (no operation reopens the handle). -/
-theorem closed_run (impl : Impl) (s : State) (ops : List Op) (hc : s.isOpen = false) (hi : Inv s) :
-    run impl s ops = s := by
-  induction ops with
-  | nil => rfl
-  | cons op rest ih =>
-    simp only [run]
-    rw [(closed_step impl s hc hi op).1]
-    exact ih
+/-- In a closed state every access is refused and nothing but the close phase can change. -/
+theorem closed_step (impl : Impl) (s : State) (hc : Closed s) (op : Op) :
+    Closed (step impl s op).1 ∧
+    (∀ n, op = .getFunc n → step impl s op = (s, .err .closed)) ∧
+    (∀ n, op = .readVar n → step impl s op = (s, .err .closed)) ∧
+    (∀ n v, op = .writeVar n v → step impl s op = (s, .err .closed)) ∧
+    (op = .close → (step impl s op).2 = .done) := by
+  obtain ⟨ho, hf, hv⟩ := hc
+  cases impl <;> cases op <;> cases hp : s.phase <;>
+    simp [Closed, step, closeStep, closeAll, fetchVar, outOf, ho, hf, hv, hp]
 
-theorem close_closes (impl : Impl) (s : State) : (step impl s .close).1.isOpen = false := by
-  cases hc : s.isOpen <;> simp [step, hc]
+theorem closed_run (impl : Impl) (s : State) (ops : List Op) (hc : Closed s) : Closed (run impl s ops) := by
+  induction ops generalizing s with
+  | nil => exact hc
+  | cons op rest ih => exact ih _ (closed_step impl s hc op).1
 
-/-- The state after any history that contains a `close` is closed (and satisfies the invariant). -/
-theorem closed_after (impl : Impl) (funcs : List Name) (vars : List (Name × Int)) (before after : List Op) :
-    (run impl (openLib funcs vars) (before ++ .close :: after)).isOpen = false ∧
-    Inv (run impl (openLib funcs vars) (before ++ .close :: after)) := by
-  have hi := inv_run impl _ before (inv_open funcs vars)
+/-- The moment an `ffi.dlclose` call returns with no other close in flight, the state is `Closed` —
+whatever the other threads did between its steps. -/
+theorem done_closed (impl : Impl) (s : State) (op : Op) (hi : Inv impl s)
+    (hd : (step impl s op).2 = .done) (hp : (step impl s op).1.phase = .none) : Closed (step impl s op).1 := by
+  have hi' := inv_step impl s op hi
+  have hopen : (step impl s op).1.isOpen = false := by
+    obtain ⟨h1, h2, h3, h4, h5⟩ := hi
+    cases impl <;> cases op <;>
+      simp only [step, closeStep, closeAll, fetchVar, derefVar, outOf] at hd hp ⊢ <;> grind
+  rcases hi'.closed_empty hopen with h | h
+  · rw [hp] at h; cases h
+  · exact ⟨hopen, h.1, h.2⟩
+
+/-- The state after any history in which some `dlclose` call returned (with no other close in flight). -/
+theorem closed_after (impl : Impl) (funcs : List Name) (vars : List (Name × Int)) (before after : List Op) (c : Op)
+    (hd : (step impl (run impl (openLib funcs vars) before) c).2 = .done)
+    (hp : (step impl (run impl (openLib funcs vars) before) c).1.phase = .none) :
+    Closed (run impl (openLib funcs vars) (before ++ c :: after)) := by
+  have hi := inv_run impl _ before (inv_open impl funcs vars)
   rw [run_append]
-  generalize run impl (openLib funcs vars) before = s at hi
   simp only [run]
-  have hi' := inv_step impl s .close hi
-  have hc := close_closes impl s
-  rw [closed_run impl _ after hc hi']
-  exact ⟨hc, hi'⟩
+  exact closed_run impl _ after (done_closed impl _ c hi hd hp)
 
-/-- **After `dlclose`, reading or writing a global raises** (and the library's
-memory, like the rest of the state, is not touched) — whatever was accessed
-before the close and whatever happened since. -/
+/-- **After `dlclose` has returned, reading or writing a global raises** (and the library's
+memory, like the rest of the state, is not touched) — whatever was accessed before, whatever other
+threads did between the steps of the close, and whatever happened since. -/
 theorem after_close_var_errors (impl : Impl) (funcs : List Name) (vars : List (Name × Int))
-    (before after : List Op) (n : Name) (v : Int) :
-    let s := run impl (openLib funcs vars) (before ++ .close :: after)
+    (before after : List Op) (c : Op) (n : Name) (v : Int)
+    (hd : (step impl (run impl (openLib funcs vars) before) c).2 = .done)
+    (hp : (step impl (run impl (openLib funcs vars) before) c).1.phase = .none) :
+    let s := run impl (openLib funcs vars) (before ++ c :: after)
     step impl s (.readVar n) = (s, .err .closed) ∧ step impl s (.writeVar n v) = (s, .err .closed) := by
   intro s
-  obtain ⟨hc, hi⟩ := closed_after impl funcs vars before after
-  have r := closed_step impl s hc hi (.readVar n)
-  have w := closed_step impl s hc hi (.writeVar n v)
-  exact ⟨Prod.ext r.1 r.2, Prod.ext w.1 w.2⟩
+  have hc := closed_after impl funcs vars before after c hd hp
+  exact ⟨(closed_step impl s hc (.readVar n)).2.2.1 n rfl, (closed_step impl s hc (.writeVar n v)).2.2.2.1 n v rfl⟩
 
-/-- **After `dlclose`, fetching a function raises** — for every name, hence in
+/-- **After `dlclose` has returned, fetching a function raises** — for every name, hence in
 particular for the functions not fetched before the close. -/
 theorem after_close_new_function_errors (impl : Impl) (funcs : List Name) (vars : List (Name × Int))
-    (before after : List Op) (n : Name) :
-    let s := run impl (openLib funcs vars) (before ++ .close :: after)
+    (before after : List Op) (c : Op) (n : Name)
+    (hd : (step impl (run impl (openLib funcs vars) before) c).2 = .done)
+    (hp : (step impl (run impl (openLib funcs vars) before) c).1.phase = .none) :
+    let s := run impl (openLib funcs vars) (before ++ c :: after)
     step impl s (.getFunc n) = (s, .err .closed) := by
   intro s
-  obtain ⟨hc, hi⟩ := closed_after impl funcs vars before after
-  have r := closed_step impl s hc hi (.getFunc n)
-  exact Prod.ext r.1 r.2
+  have hc := closed_after impl funcs vars before after c hd hp
+  exact (closed_step impl s hc (.getFunc n)).2.1 n rfl
 
-/-- **Closing again is harmless**: in every state `close` succeeds, and a second
-`close` changes nothing. -/
+/-- The uninterrupted close, from any reachable state with no close in flight, is such a returning call
+(so the two theorems above apply to `c = .close` after every history of plain accesses and closes). -/
+theorem close_returns (impl : Impl) (s : State) (hi : Inv impl s) (hp : s.phase = .none) :
+    (step impl s .close).2 = .done ∧ (step impl s .close).1.phase = .none := by
+  cases impl <;> cases ho : s.isOpen <;> simp [step, closeAll, ho, hp]
+
+/-- … and so is the stepwise close: from an open library, its steps (2 in-line, 3 out-of-line), with
+arbitrary accesses of other threads in between, end with `done` and no close in flight. -/
+theorem stepwise_close_returns (impl : Impl) (s : State) (mid1 mid2 : List Op) (hi : Inv impl s)
+    (hp : s.phase = .none) (ho : s.isOpen = true)
+    (hm1 : ∀ op ∈ mid1, op ≠ .closeStep) (hm2 : ∀ op ∈ mid2, op ≠ .closeStep) :
+    let s1 := run impl (step impl s .closeStep).1 mid1
+    let s2 := run impl (step impl s1 .closeStep).1 mid2
+    (impl = .inline → (step impl s1 .closeStep).2 = .done ∧ (step impl s1 .closeStep).1.phase = .none) ∧
+    (impl = .outOfLine → (step impl s2 .closeStep).2 = .done ∧ (step impl s2 .closeStep).1.phase = .none) := by
+  -- accesses and uninterrupted closes of other threads never move the phase
+  have keep : ∀ (ops : List Op) (t : State), (∀ op ∈ ops, op ≠ .closeStep) → (run impl t ops).phase = t.phase := by
+    intro ops
+    induction ops with
+    | nil => intro t _; rfl
+    | cons op rest ih =>
+      intro t h
+      simp only [run]
+      rw [ih _ (fun o ho => h o (by simp [ho]))]
+      have hne := h op (by simp)
+      cases impl <;> cases op <;>
+        simp only [step, closeAll, fetchVar, derefVar, outOf] <;> (repeat' split) <;> simp_all
+  intro s1 s2
+  have p1 : s1.phase = .nulled := by
+    rw [keep mid1 _ hm1]
+    cases impl <;> simp [step, closeStep, hp, ho]
+  constructor
+  · intro hin; subst hin
+    simp [step, closeStep, p1]
+  · intro hout; subst hout
+    have p2 : s2.phase = .cleared := by
+      rw [keep mid2 _ hm2]
+      simp [step, closeStep, p1]
+    simp [step, closeStep, p2]
+
+/-- **Closing again is harmless**: in every state `close` returns normally, and a second
+`close` right after changes nothing. -/
 theorem close_idempotent (impl : Impl) (s : State) :
     (step impl s .close).2 = .done ∧
     step impl (step impl s .close).1 .close = ((step impl s .close).1, .done) := by
-  cases hc : s.isOpen <;> simp [step, hc]
+  cases impl <;> cases hc : s.isOpen <;> simp [step, closeAll, hc]
+
+theorem fetchVar_ne (s : State) (n : Name) (h : s.loaded = true ∨ s.isOpen = false) :
+    fetchVar s n ≠ .error .useAfterUnload := by
+  unfold fetchVar
+  rcases h with h | h
+  · cases s.isOpen <;> simp [h] <;> split <;> simp
+  · simp [h]
+
+theorem derefVar_ne (s : State) (n : Name) (h : s.loaded = true) : derefVar s n ≠ .error .useAfterUnload := by
+  unfold derefVar
+  simp [h]; split <;> simp
+
+theorem outOf_ne (e : Except Err Int) (k : Int → State × Out) (s : State)
+    (he : e ≠ .error .useAfterUnload) (hk : ∀ v, (k v).2 ≠ .err .useAfterUnload) :
+    (outOf e k s).2 ≠ .err .useAfterUnload := by
+  cases e with
+  | ok v => exact hk v
+  | error x => simp only [outOf]; intro h; apply he; injection h with h; rw [h]
+
+theorem step_ne_useAfterUnload (impl : Impl) (s : State) (op : Op) (h4 : s.loaded = false → s.isOpen = false ∧ s.cachedV = []) :
+    (step impl s op).2 ≠ .err .useAfterUnload := by
+  have hf : ∀ n, fetchVar s n ≠ .error .useAfterUnload := by
+    intro n; apply fetchVar_ne
+    cases hl : s.loaded
+    · exact Or.inr (h4 hl).1
+    · exact Or.inl rfl
+  cases op with
+  | getFunc n =>
+    simp only [step]
+    cases hl : s.loaded
+    · simp [(h4 hl).1]; split <;> simp
+    · (repeat' split) <;> simp_all
+  | readVar n =>
+    cases impl <;> simp only [step]
+    · exact outOf_ne _ _ _ (hf n) (by simp)
+    · split
+      · rename_i hc
+        cases hl : s.loaded
+        · rw [(h4 hl).2] at hc; simp at hc
+        · exact outOf_ne _ _ _ (derefVar_ne s n hl) (by simp)
+      · exact outOf_ne _ _ _ (hf n) (by simp)
+  | writeVar n v =>
+    cases impl <;> simp only [step]
+    · exact outOf_ne _ _ _ (hf n) (by simp)
+    · split
+      · rename_i hc
+        cases hl : s.loaded
+        · rw [(h4 hl).2] at hc; simp at hc
+        · exact outOf_ne _ _ _ (derefVar_ne s n hl) (by simp)
+      · exact outOf_ne _ _ _ (hf n) (by simp)
+  | close => simp [step]
+  | closeStep => cases impl <;> cases hp : s.phase <;> simp [step, closeStep, hp] <;> split <;> simp
+
+/-- **No access ever goes to the library after `dlclose()` gave the reference back**, in any history
+and any interleaving with the steps of a close. -/
+theorem never_use_after_unload (impl : Impl) (funcs : List Name) (vars : List (Name × Int))
+    (history : List Op) (op : Op) :
+    (step impl (run impl (openLib funcs vars) history) op).2 ≠ .err .useAfterUnload :=
+  step_ne_useAfterUnload impl _ op (inv_run impl _ history (inv_open impl funcs vars)).unloaded
 
 /-- While the library is open the accesses do work (the refusals above are not
 the model refusing everything): a variable the library exports reads back the
 value last written through `lib`, in both implementations. -/
 theorem open_write_then_read (impl : Impl) (s : State) (n : Name) (v x : Int)
-    (ho : s.isOpen = true) (hx : s.mem.lookup n = some x) :
+    (ho : s.isOpen = true) (hl : s.loaded = true) (hx : s.mem.lookup n = some x) :
     (step impl (step impl s (.writeVar n v)).1 (.readVar n)).2 = .value v := by
   have hset : ∀ m : List (Name × Int), ∀ x, m.lookup n = some x → (setMem m n v).lookup n = some v := by
     intro m
@@ -132,20 +251,32 @@ theorem open_write_then_read (impl : Impl) (s : State) (n : Name) (v x : Int)
         simp [setMem, e, List.lookup, e', ih x h]
   have hv := hset s.mem x hx
   cases impl
-  · simp [step, fetchVar, ho, hx, hv]
-  · by_cases hcv : n ∈ s.cachedV <;> simp [step, fetchVar, ho, hx, hv, hcv]
+  · simp [step, fetchVar, outOf, ho, hl, hx, hv]
+  · by_cases hcv : n ∈ s.cachedV <;> simp [step, fetchVar, derefVar, outOf, ho, hl, hx, hv, hcv]
 
--- Non-vacuity: a concrete history (out-of-line: the variable accessor is cached
--- before the close; in-line too) that fetches, writes, closes, and goes on.
+-- Non-vacuity.  A history that caches a function and two variable accessors, then closes
+-- *stepwise* while another thread reads a cached variable between the steps:
 def exLib : State := openLib [0, 1] [(10, 5), (11, -3)]
 def exBefore : List Op := [.getFunc 0, .readVar 10, .writeVar 11 7, .readVar 11]
 example : (run .outOfLine exLib exBefore) =
-    { isOpen := true, cachedF := [0], cachedV := [11, 10], funcs := [0, 1], mem := [(10, 5), (11, 7)] } := by decide
+    { isOpen := true, cachedF := [0], cachedV := [11, 10], funcs := [0, 1], mem := [(10, 5), (11, 7)],
+      phase := .none, loaded := true } := by decide
 example : (step .outOfLine (run .outOfLine exLib exBefore) (.readVar 11)).2 = .value 7 := by decide
-example : (step .outOfLine (run .outOfLine exLib (exBefore ++ .close :: [.getFunc 1, .close])) (.readVar 11)).2
+-- in the window after the handle was NULLed and before the cache is cleared, a cached accessor still answers …
+example : (step .outOfLine (run .outOfLine exLib (exBefore ++ [.closeStep])) (.readVar 11)).2 = .value 7 := by decide
+-- … but nothing new can be fetched, and once the close has returned everything is refused:
+example : (step .outOfLine (run .outOfLine exLib (exBefore ++ [.closeStep])) (.getFunc 1)).2 = .err .closed := by decide
+def exStepwise : List Op := exBefore ++ [.closeStep, .readVar 11, .getFunc 1, .closeStep, .readVar 10, .closeStep]
+example : (step .outOfLine (run .outOfLine exLib (exBefore ++ [.closeStep, .readVar 11, .getFunc 1, .closeStep, .readVar 10])) .closeStep).2 = .done := by decide
+example : (run .outOfLine exLib exStepwise).phase = .none := by decide
+example : (step .outOfLine (run .outOfLine exLib (exStepwise ++ [.getFunc 1, .close])) (.readVar 11)).2
     = .err .closed := by decide
+example : (step .inline (run .inline exLib (exBefore ++ [.closeStep, .getFunc 0, .closeStep])) (.getFunc 0)).2 = .err .closed := by decide
 example : (step .inline (run .inline exLib (exBefore ++ .close :: [])) (.getFunc 1)).2 = .err .closed := by decide
 example : (step .inline (run .inline exLib exBefore) (.getFunc 1)).2 = .func 1 := by decide
 example : (step .inline (run .inline exLib exBefore) (.getFunc 5)).2 = .err .notFound := by decide
+-- the order matters: clearing *before* NULLing (what the model does not do) is what would break it —
+-- here the state a wrong-order close would be in (cache cleared, handle still open) lets a read re-cache:
+example : (step .outOfLine { (run .outOfLine exLib exBefore) with cachedF := [], cachedV := [] } (.readVar 10)).1.cachedV = [10] := by decide
 
 end CffiVerif.C37
